@@ -127,14 +127,14 @@ func vrtAssumeClock(h *Header, now Timestamp) {
 	vrt.Assume(int64(now) >= int64(h.maxRetention)+2*int64(last.secondsPerPoint))
 }
 
-// vrtAssumeNear: T1 of DESIGN section 3: instant t (if non-zero) lies within 2^30 seconds of
+// vrtAssumeNear: T1 of DESIGN section 3: instant t (if non-zero) lies within 2^30 - 2^20 seconds of
 // the clock, so that any two instants of one scenario (and their aligned neighbours one
 // retention away) differ by less than 2^31 - the range of the int32 Duration type.
 func vrtAssumeNear(h *Header, now, t Timestamp) {
 	if t != 0 {
 		d := int64(now) - int64(t)
-		vrt.Assume(d <= 0x3fffffff)
-		vrt.Assume(d >= -0x3fffffff)
+		vrt.Assume(d <= 0x3fffffff-0x100000)
+		vrt.Assume(d >= -(0x3fffffff - 0x100000))
 	}
 }
 
